@@ -331,6 +331,8 @@ def oracle_wig_queries(case, il):
             continue
         a = ans.get(qi, f"A {qi} missing")
         s, e = int(q[3]), int(q[4])
+        if q[2] not in data:
+            continue                      # a chromosome without data is not in the file: the query is refused
         vals = data.get(q[2], [])
         if not a.startswith(f"A {qi} ok"):
             return f"query {q[1]} {q[2]}:{s}-{e} failed: `{a[:80]}`"
@@ -371,6 +373,8 @@ def oracle_bed_queries(case, il, exact_full_span=False):
             continue
         a = ans.get(qi, f"A {qi} missing")
         s, e = int(q[3]), int(q[4])
+        if q[2] not in data:
+            continue
         ents = data.get(q[2], [])
         if not a.startswith(f"A {qi} ok"):
             return f"query {q[2]}:{s}-{e} failed: `{a[:80]}`"
@@ -473,7 +477,7 @@ def oracle_zoom(case, il, bed):
         if q[1] != "zoom":
             continue
         k = int(q[5][1:]) if q[5].startswith("#") else None
-        if k is None or k >= len(levels):
+        if k is None or k >= len(levels) or q[2] not in order:
             continue
         res = levels[k]
         a = ans.get(qi, f"A {qi} missing")
@@ -515,7 +519,7 @@ def oracle_zoom(case, il, bed):
         if q[1] != "zoom" or not q[5].startswith("#"):
             continue
         k = int(q[5][1:])
-        if k >= len(levels):
+        if k >= len(levels) or q[2] not in order:
             continue
         res = levels[k]
         key = (q[2], res)
